@@ -216,19 +216,24 @@ class SimIceConnection:
         self._nominated = True
 
     async def close(self):
+        # same order of effects, and the same suspension points, as aioice.Connection.close()
         if self._connecting and not self._nominated:
-            self._abort_connect = True
+            self._abort_connect = True          # check list -> ICE_FAILED
         if self._consent_handle is not None:
             self._consent_handle.cancel()
             self._consent_handle = None
-        was_open = self._nominated or self._local_candidates
         self._nominated = False
-        self._local_candidates.clear()
-        if was_open:
-            # the UDP protocols are closed: a pending recv() is woken with "connection lost"
+        protocols = len(self._local_candidates)
+        for _ in range(protocols):
+            # `await protocol.close()`: the UDP transport is closed and connection_lost() runs on the next
+            # loop iteration; it also wakes a pending recv() with "connection lost"
+            if self.link_out is not None:
+                self.link_out.closed = True
             self._queue.put_nowait((None, None))
+            await asyncio.sleep(0)
         if self.link_out is not None:
             self.link_out.closed = True
+        self._local_candidates.clear()
         if not self._closed:
             self._emit_event(ConnectionClosed())
             self._closed = True
